@@ -83,7 +83,47 @@ def o_channel(inp):
     return [] if out == exp else [("channel", "set_channel changed something other than the channel")]
 
 
+def o_wrapper(inp):
+    """the same four operations through the Sequence wrapper, from each freshness state, observed through BOTH views"""
+    from scoda.sequences.sequence import Sequence
+    rel = [tuple(m) for m in inp["rel"]]
+    op, args, state = inp["op"], inp["args"], inp["state"]
+    s = P.seq_of_rel(rel)
+    if state == "abs":
+        s = Sequence(absolute_sequence=s.abs.copy())
+    elif state == "both":
+        s.refresh()
+    tin, din = rel_timed(rel)
+    try:
+        if op == "pad":
+            s.pad(args[0]); exp_t, exp_d = tin, max(din, args[0])
+        elif op == "scale":
+            s.scale(args[0], quantise_afterwards=False); exp_t, exp_d = [(t * args[0], m) for t, m in tin], din * args[0]
+        elif op == "channel":
+            s.set_channel(args[0]); exp_t, exp_d = [(t, (m[0], args[0]) + tuple(m[2:])) for t, m in tin], din
+        else:
+            return []
+    except Exception as e:
+        return [("wrapper-raises", f"{op} from state {state}: {type(e).__name__}: {e}")]
+    fails = []
+    key = lambda lst: sorted((t,) + tuple(-1 if x is None else x for x in (m[0], m[1]) + tuple(m[3:])) for t, m in lst)  # noqa
+    for view in ("abs", "rel"):
+        c = s.copy()
+        if view == "abs":
+            got_t, got_d = abs_timed([from_real(m) for m in c.abs._messages])
+            if not c.abs._messages:
+                got_d = 0
+        else:
+            got_t, got_d = rel_timed([from_real(m) for m in c.rel._messages])
+        if key(got_t) != key(exp_t):
+            fails.append((f"{op}-wrapper", f"{op}{args} from state '{state}': the {view} view does not show the effect"))
+        if got_d != exp_d:
+            fails.append((f"{op}-wrapper", f"{op}{args} from state '{state}': duration {got_d} through the {view} view, expected {exp_d}"))
+    return fails
+
+
 def setup(ctx):
+    ctx.oracle("wrapper", o_wrapper)
     ctx.oracle("pad", o_pad)
     ctx.oracle("cutoff", o_cutoff)
     ctx.oracle("scale", o_scale)
@@ -113,4 +153,8 @@ def generate(ctx):
         ctx.case(("channel", rel, c), len(rel) > 0)
         ctx.check("channel", {"rel": rel, "c": c})
         ctx.corr("setChannel", P.op_setChannel(c, rel))
+        for op, args in (("pad", [n]), ("scale", [k]), ("channel", [c])):
+            state = rng.choice(["rel", "abs", "both"])
+            ctx.count("wrapper:" + state)
+            ctx.check("wrapper", {"rel": rel, "op": op, "args": args, "state": state})
         ctx.sample({"pad": n, "cutoff": [m_, r], "scale": k, "channel": c, "rel": rel[:6]})
